@@ -180,6 +180,13 @@ class CFG:
                     out.append((u, v))
         return out
 
+    def loops_by_header(self):
+        """natural loops, those that share a header merged (a `continue`-like second back edge does not make a second loop)"""
+        by = {}
+        for e in self.back_edges():
+            by.setdefault(e[1], set()).update(self.natural_loop(e))
+        return list(by.values())
+
     def natural_loop(self, back_edge):
         u, v = back_edge
         loop = {v}
